@@ -75,6 +75,47 @@ class Instance:
         return f"<{self.c.name} instance arg={self.fields.get('arg')!r}>"
 
 
+class EnumMember(tuple):
+    """A member of an Enum class of the repository: ("enum-member", {"name", "value"}) for the checks that read it as data, and an
+    object for the interpreted code - one per (class, name), carrying the attributes the enum's own __init__ sets, with the
+    class's methods and comparison operators bound to it."""
+
+    def __new__(cls, oe, k, name, value):
+        t = tuple.__new__(cls, ("enum-member", {"name": name, "value": value}))
+        t.oe, t.k, t.fields = oe, k, {}
+        return t
+
+    @property
+    def c(self):
+        return self.k
+
+    def sa_attr(self, name):
+        if name in ("name", "_name_"):
+            return self[1]["name"]
+        if name in ("value", "_value_"):
+            return self[1]["value"]
+        if name in self.fields:
+            return self.fields[name]
+        if name == "__class__":
+            return self.oe.ref(self.k)
+        return self.oe.class_getattr(self.k, name, self)
+
+    def sa_setattr(self, name, v):
+        self.fields[name] = v
+
+    def __repr__(self):
+        return f"<{self.k.name}.{self[1]['name']}>"
+
+    def __hash__(self):
+        return id(self)
+
+    def __eq__(self, other):
+        return self is other
+
+    def __ne__(self, other):
+        return self is not other
+
+
 class BoundMethod:
     sa_callable = True
 
@@ -369,6 +410,7 @@ class ObjEval:
         self.depth = 0
         self.steps = 0
         self.special_attrs = {}  # (class qualname, attr) -> value provider
+        self._enum_members: Dict[tuple, Any] = {}
         self._class_values: Dict[tuple, Any] = {}
         self._module_values: Dict[tuple, Any] = {}
         self._defaults: Dict[tuple, Any] = {}
@@ -397,10 +439,10 @@ class ObjEval:
             cr = receiver if isinstance(receiver, ClassRef) else self.ref(receiver.c)
             return BoundMethod(self, f, cr, owner)
         if f.kind == "property":
-            if isinstance(receiver, Instance):
+            if isinstance(receiver, (Instance, EnumMember)):
                 return self.call_func(f, [receiver], {}, owner)
             raise Unsupported("property read on a class")
-        if isinstance(receiver, Instance):
+        if isinstance(receiver, (Instance, EnumMember)):
             return BoundMethod(self, f, receiver, owner)
         return BoundMethod(self, f, None, owner)  # plain function looked up on the class
 
@@ -435,7 +477,7 @@ class ObjEval:
             if name in k.attrs:
                 v = self.fold_class_attr(k, name)
                 if "enum.Enum" in self.repo.mro(k) and not name.startswith("_"):
-                    return ("enum-member", {"name": name, "value": v})
+                    return self.enum_member(k, name, v)
                 if isinstance(v, BoundMethod) and v.receiver is None and isinstance(receiver, Instance) and v.f.kind not in ("staticmethod", "classmethod"):
                     return self.bind(v.f, receiver, v.owner or k)  # `alias = method` in the class body
                 return v
@@ -444,6 +486,18 @@ class ObjEval:
         if name in self.external_base_methods and isinstance(receiver, Instance) and any(not b.startswith("fickling.") for b in self.repo.mro(c)):
             return self.external_base_methods[name](receiver)
         raise PyRaise("AttributeError")
+
+    def enum_member(self, k: ClassInfo, name: str, value):
+        key = (k.qualname, name)
+        m = self._enum_members.get(key)
+        if m is None:
+            m = self._enum_members[key] = EnumMember(self, k, name, value)
+            init = next((kk.method("__init__") for kk in self.repo.mro_classes(k) if kk.method("__init__") is not None), None)
+            if init is not None:
+                # EnumType calls __init__(member, *value) for tuple values, __init__(member, value) otherwise
+                args = list(value) if isinstance(value, tuple) else [value]
+                self.call_func(init, [m] + args, {}, k)
+        return m
 
     def special(self, c: ClassInfo, name: str):
         if name == "info":
@@ -823,6 +877,8 @@ class OEvaluator(Evaluator):
                 return r
         if isinstance(e, ast.Compare) and len(e.ops) == 1 and isinstance(e.ops[0], (ast.Eq, ast.NotEq, ast.Is, ast.IsNot)):
             l, r = self.ev(e.left), self.ev(e.comparators[0])
+            if isinstance(e.ops[0], (ast.Eq, ast.NotEq)) and (isinstance(l, EnumMember) or isinstance(r, EnumMember)):
+                return self.compare(e.ops[0], l, r)
             if any(isinstance(x, (ClassRef, Instance, _PyType, BoundMethod)) for x in (l, r)):
                 same = l is r
                 return same if isinstance(e.ops[0], (ast.Eq, ast.Is)) else not same
@@ -846,7 +902,9 @@ class OEvaluator(Evaluator):
                 elif v.conversion == ord("a"):
                     x = ascii(x)
                 spec = self.ev(v.format_spec) if v.format_spec is not None else ""
-                if isinstance(x, (ClassRef, Instance, BoundMethod, Record)) and not isinstance(x, str):
+                if isinstance(x, (Instance, EnumMember)) and not isinstance(x, str):
+                    x = self.to_text(x)
+                elif isinstance(x, (ClassRef, BoundMethod, Record)) and not isinstance(x, str):
                     x = repr(x)
                 try:
                     parts.append(format(x, spec))
@@ -872,6 +930,8 @@ class OEvaluator(Evaluator):
             if attr in v.fields:
                 return v.fields[attr]
             raise PyRaise("AttributeError")
+        if isinstance(v, EnumMember):
+            return v.sa_attr(attr)
         if isinstance(v, tuple) and len(v) == 2 and v[0] == "enum-member" and attr in ("value", "name"):
             return v[1][attr]
         if isinstance(v, struct.Struct):
@@ -926,9 +986,14 @@ class OEvaluator(Evaluator):
                     setattr(o, a, v)  # a field of a syntax-tree node the interpreted code built: plain data
                     return None
                 raise Unsupported("setattr on a non-object")
+            if fn.id in ("str", "repr") and len(e.args) == 1 and not e.keywords:
+                o = self.ev(e.args[0])
+                if isinstance(o, (Instance, EnumMember)):
+                    return self.to_text(o, fn.id == "repr")
+                e = ast.copy_location(ast.Call(func=e.func, args=[_Lit(o)], keywords=[]), e)
             if fn.id == "type" and len(e.args) == 1:
                 o = self.ev(e.args[0])
-                if isinstance(o, Instance):
+                if isinstance(o, (Instance, EnumMember)):
                     return self.oe.ref(o.c)
                 return _PyType(type(o))
             if fn.id == "len" and len(e.args) == 1:
@@ -992,7 +1057,45 @@ class OEvaluator(Evaluator):
             return f(*args, **kw)
         return _MISSING
 
+    _DUNDER = {ast.Lt: ("__lt__", "__gt__"), ast.Gt: ("__gt__", "__lt__"), ast.LtE: ("__le__", "__ge__"), ast.GtE: ("__ge__", "__le__"), ast.Eq: ("__eq__", "__eq__"), ast.NotEq: ("__ne__", "__ne__")}
+
+    def compare(self, op, l, r):
+        if type(op) in self._DUNDER and (isinstance(l, (EnumMember, Instance)) or isinstance(r, (EnumMember, Instance))):
+            d, refl = self._DUNDER[type(op)]
+            for recv, other, name in ((l, r, d), (r, l, refl)):
+                if isinstance(recv, (EnumMember, Instance)):
+                    try:
+                        m = self.oe.class_getattr(recv.c, name, recv)
+                    except PyRaise:
+                        continue
+                    res = m(other)
+                    if res is not NotImplemented:
+                        return res
+            if isinstance(op, ast.Eq):
+                return l is r
+            if isinstance(op, ast.NotEq):
+                return l is not r
+            raise PyRaise("TypeError")
+        return super().compare(op, l, r)
+
+    def to_text(self, o, as_repr: bool = False) -> str:
+        """str(o) / repr(o) for an object of the repository: its own __str__ / __repr__ where it has one."""
+        for name in (("__repr__",) if as_repr else ("__str__", "__repr__")):
+            try:
+                m = self.oe.class_getattr(o.c, name, o)
+            except PyRaise:
+                continue
+            r = m()
+            if not isinstance(r, str):
+                raise PyRaise("TypeError")
+            return r
+        if isinstance(o, EnumMember):
+            return f"{o.k.name}.{o[1]['name']}" if not as_repr else f"<{o.k.name}.{o[1]['name']}: {o[1]['value']!r}>"
+        return f"<{o.c.module.name}.{o.c.name} object>"
+
     def truth(self, v) -> bool:
+        if isinstance(v, EnumMember):
+            return True
         if isinstance(v, Instance):
             for dunder in ("__bool__", "__len__"):
                 try:
@@ -1010,12 +1113,12 @@ class OEvaluator(Evaluator):
         ts = t if isinstance(t, tuple) else (t,)
         for x in ts:
             if isinstance(x, _PyType):
-                if isinstance(v, (Instance, ClassRef, Record)):
+                if isinstance(v, (Instance, ClassRef, Record, EnumMember)):
                     continue
                 if isinstance(v, x.t):
                     return True
             elif isinstance(x, ClassRef):
-                if isinstance(v, Instance) and x.c in self.oe.repo.mro_classes(v.c):
+                if isinstance(v, (Instance, EnumMember)) and x.c in self.oe.repo.mro_classes(v.c):
                     return True
             elif isinstance(x, Record) and x.cls == "typing":
                 # typing.ByteString and friends
